@@ -140,6 +140,7 @@ func FuzzC15(f *testing.F) {
 		for fl := 0; fl < 10; fl++ {
 			f.Add(s, uint8(fl), uint8(0xff), uint8(fl))
 			f.Add(s, uint8(fl), uint8(0), uint8(3))
+			f.Add(s, uint8(fl), uint8(0x80), uint8(fl))
 		}
 	}
 	f.Fuzz(func(t *testing.T, s string, field, caps, opts uint8) {
@@ -151,6 +152,9 @@ func FuzzC15(f *testing.F) {
 			if caps&(1<<uint(i)) != 0 {
 				adv = append(adv, e)
 			}
+		}
+		if caps == 0x80 {
+			adv = []string{c15HeloOnly}
 		}
 		mail := c15Call{Op: "mail", Addr: "sender@example.org", Opts: true, RTLS: opts&1 != 0, UTF8: opts&2 != 0, Ret: "FULL", EnvID: "envelope-1"}
 		if opts&4 != 0 {
